@@ -1,5 +1,6 @@
 import Driver.OpsAnalysis
 import TT.Spec.Replay
+import TT.TransSentence
 namespace Driver
 open TT TT.Tree TT.Spec
 
@@ -38,6 +39,9 @@ def runOpTrans (op : String) (args : List String) : String :=
           let want := t.terminals.map fun x => String.ofList (if pos == "t" then x.fields.label else x.fields.word.getD [])
           if sent.splitOn " " == want then "ok" else "FAIL written-sentence-is-not-the-token-sequence"
         | [] => "FAIL written-sentence-is-not-the-token-sequence"
+  | "oracle_sentence", [t] => withTree t fun t =>
+      -- what the oracles return beside the transitions: TT.oracleSentence (= Spec.sentenceOf, `oracleSentence_eq`)
+      ",".intercalate ((oracleSentence t).map fun p => encOS p.1 ++ "/" ++ encS p.2)
   | "P.C10.sentence", [t, sent] => withTree t fun t =>
       let want := ",".intercalate (t.terminals.map fun l => encOS l.fields.word ++ "/" ++ encS l.fields.label)
       if sent == want then "ok" else "FAIL sentence"
